@@ -49,7 +49,7 @@ def _temps(f, pa):
     return out
 
 
-def deciding(m, f, site, mode="value"):
+def deciding(m, f, site, mode="value", with_necessary=False):
     pa = Prov(m, mode)
     temps = _temps(f, pa)
     sets, switches = f._corr()
@@ -148,6 +148,7 @@ def deciding(m, f, site, mode="value"):
             if p not in can:
                 work.append(p)
     found = {}
+    per_block = {}
     for st in seen:
         b, facts = st
         t = f.blocks[b]["t"]
@@ -172,7 +173,36 @@ def deciding(m, f, site, mode="value"):
         key = (b, repr(r), neg, tuple(sorted(ok)))
         if key not in found:
             found[key] = Guard(f, b, ok, alll, r, neg)
-    return list(found.values())
+        per_block.setdefault(b, []).append((st, ok, alll, r, neg))
+    out = list(found.values())
+    if not with_necessary:
+        return out
+    # necessary conditions: every path from the entry to the site passes the switch and leaves it through one of the
+    # labels that can reach the site (cutting those edges makes the site unreachable)
+    nec = []
+    for b, lst in per_block.items():
+        labels = set()
+        for st, ok, alll, r, neg in lst:
+            labels |= ok
+        alll = lst[0][2]
+        if labels >= set(alll):
+            continue
+        if _reachable_without(succs, start, site, b, labels):
+            continue
+        roots = {(repr(r), neg) for _, _, _, r, neg in lst}
+        if len(roots) == 1:
+            r, neg = lst[0][3], lst[0][4]
+        else:
+            # different conditions on different paths: only the unresolved operand of the switch holds on all of them
+            t = f.blocks[b]["t"]
+            r = pa.root(f, t[1])
+            neg = False
+            while r[0] == "not":
+                neg = not neg
+                r = r[1]
+        g = Guard(f, b, labels, alll, r, neg)
+        nec.append(g)
+    return out, nec
 
 
 def _reaches(succs, start, site, avoid_block):
@@ -297,3 +327,26 @@ def reach_table(m, f, site, classify, mode="value", limit=200000):
 def bool_truth(neg):
     """label -> truth of the (un-negated) condition for a two-way boolean switch"""
     return {"0": neg, "otherwise": not neg}
+
+
+def _reachable_without(succs, start, site, block, labels):
+    """is `site` reachable from `start` when the edges of `block` with a label in `labels` are cut?"""
+    seen = set()
+    work = [start]
+    while work:
+        st = work.pop()
+        if st in seen:
+            continue
+        seen.add(st)
+        if st[0] == site:
+            return True
+        for lbl, nx in succs.get(st, ((), None))[0]:
+            if st[0] == block and lbl in labels:
+                continue
+            if nx not in seen:
+                work.append(nx)
+    return False
+
+
+def necessary(m, f, site, mode="value"):
+    return deciding(m, f, site, mode, with_necessary=True)[1]
